@@ -864,7 +864,15 @@ class UnionByTypeMethod(DeserializationMethod):
         try:
             return method.deserialize(data)
         except ValidationError as err:
-            other_classes = (cls for cls in self.method_by_cls if cls is not data_cls)
+            tried = {data_cls}
+            if data_cls is int and float in self.method_by_cls:
+                # an integer rejected by the int alternative is still a valid number
+                try:
+                    return self.method_by_cls[float].deserialize(data)
+                except ValidationError as float_err:
+                    err = merge_errors(err, float_err)
+                tried.add(float)
+            other_classes = (cls for cls in self.method_by_cls if cls not in tried)
             raise merge_errors(err, bad_type(data, *other_classes))
 
 
